@@ -41,6 +41,12 @@ nx.MultiDiGraph / nx.MultiGraph objects (parallel reactant + product edges, para
 that are neither species nor reaction and edges that do not join a species to a reaction (stoich.py: "Ignore edges that do not
 connect species to reaction"), nodes whose `bipartite` flag contradicts their `kind` (documented: `kind` decides).
 
+Representation-and-scale streams (`scale`, `scale-session`, `scale-graph`): networks whose conservation law / steady flux has a
+large dynamic range (cascades X0 >> 3 X1 >> ..., 50 A >> B, 50 B >> C; ratios up to 2e5), multi-digit coefficients, sizes one
+step beyond the enumerated / random bounds; coefficients handed over as float / NumPy scalars / through one-shot iterables;
+graph attributes nobody asked for.  The truth is the same exact certificate as everywhere else; an exact guard (`scale_profile`)
+keeps the inputs inside the range where double precision with the implementation's fixed thresholds can decide.
+
 The modelled decision logic (`stoich.logic`) is run on the observed oracle outcomes
 (kernel sizes, sign-definite columns, LP status) and its agreement with the implementation is
 recorded in the counters (not gated: `None` versus `False` is not fixed by the property).
@@ -253,6 +259,20 @@ def _sides(rx):
             out.append([(s, c) for s, c in side])
         elif form == "side":
             out.append(RXNSide.from_any({s: c for s, c in side}))
+        # -- representation variants (all stand for the SAME network: the coefficient is the integer c)
+        elif form == "gen":             # one-shot iterable of (label, count) pairs (documented: Iterable[Tuple[str, int]])
+            out.append(((s, c) for s, c in list(side)))
+        elif form == "iter" and all(c <= 300 for _, c in side):   # one-shot iterable of labels (documented: Iterable[str])
+            out.append(iter([s for s, c in side for _ in range(c)]))
+        elif form == "map":             # one-shot `map` object yielding pairs
+            out.append(map(tuple, [[s, c] for s, c in side]))
+        elif form in ("float", "npint", "npfloat", "mixednum"):
+            import numpy as np
+
+            kinds = {"float": [float], "npint": [np.int64], "npfloat": [np.float64],
+                     "mixednum": [int, float, np.int64, np.float64, np.int32]}[form]
+            # values equal under == but of different type / print, mixed within one side
+            out.append({s: kinds[(i + len(side)) % len(kinds)](c) for i, (s, c) in enumerate(side)})
         else:
             out.append({s: c for s, c in side})
     return out
@@ -1159,6 +1179,14 @@ def record(ctx, net, obs, cert, lean, logic, tag, canon=None):
         return
     m, n, r = len(dump["species"]), len(dump["edges"]), cert["r"]
     ctx.count(f"{tag}:cases")
+    if isinstance(net, dict) and net.get("scale"):
+        sc = net["scale"]
+        ctx.count(f"scale:largest_primitive_kernel_entry{sc['big']}")
+        ctx.count(f"scale:largest_coefficient{sc['coef']}")
+        ctx.count(f"scale:left_kernel_dim:{sc['lk']}{'+' if sc['lk'] >= 2 else ''}:" + ("conservative" if cert["cons"] == "pos" else "not_conservative"))
+        ctx.count(f"scale:right_kernel_dim:{sc['rk']}{'+' if sc['rk'] >= 2 else ''}:" + ("consistent" if cert["consi"] == "pos" else "not_consistent"))
+        for f in sorted({r0.get("form") or "dict" for r0 in net["rxns"]}):
+            ctx.count("scale:input_form:" + f)
     ctx.count("conservative:" + ("yes" if cert["cons"] == "pos" else "no"))
     ctx.count("consistent:" + ("yes" if cert["consi"] == "pos" else "no"))
     ctx.count(f"split:{'cons' if cert['cons'] == 'pos' else 'noncons'}+{'consi' if cert['consi'] == 'pos' else 'nonconsi'}")
@@ -1825,6 +1853,12 @@ def work_graph(case):
             a = {"role": e["role"]}
             if e.get("stoich") is not None:
                 a["stoich"] = float(e["stoich"]) if e.get("float") else int(e["stoich"])
+                if e.get("num"):            # the same integer as a NumPy scalar (equal under ==, other type / print)
+                    import numpy as np
+
+                    a["stoich"] = {"npint": np.int64, "npfloat": np.float64, "npint32": np.int32}[e["num"]](e["stoich"])
+            # attributes the documented conventions do not mention (only `role` / `stoich` count): must be ignored
+            a.update(e.get("extra") or {})
             key = G.add_edge(u, v, **a)
             if multi:
                 ekey[op[1]] = key
@@ -2512,6 +2546,326 @@ def rare_net(rnd):
     return net
 
 
+# ---------------------------------------------------------------- scale / representation populations
+SCALE_BIG = [10, 12, 16, 20, 25, 32, 50, 64, 99, 100, 128, 250]      # coefficients outside the small alphabet {1, 2, 3}
+SCALE_RANGE = 2 * 10 ** 5    # by construction: largest / smallest "mass" of a cascade (dynamic range of its conservation law)
+SCALE_GUARD = 10 ** 6        # exact guard: largest entry of the primitive integer kernel vectors (both kernels)
+SCALE_TERM = 10 ** 7         # exact guard: largest single term coefficient * flux in a row of S v = 0 (see scale_profile)
+SCALE_COMPOSITE = 300        # largest coefficient of a composite reaction a X + b Y >> c Z
+SCALE_FORMS = ["dict", "dict", "pairs", "side", "str", "gen", "iter", "map", "float", "npint", "npfloat", "mixednum", "list"]
+
+
+def _primitive_max(v):
+    """Largest |entry| of the primitive integer multiple of the Fraction vector v."""
+    den = 1
+    for x in v:
+        den = den * x.denominator // math.gcd(den, x.denominator)
+    ints = [int(x * den) for x in v]
+    g = 0
+    for t in ints:
+        g = math.gcd(g, abs(t))
+    return max(abs(t) for t in ints) // g if g else 0
+
+
+def scale_profile(net):
+    """Exact (Fraction) profile of a generated network: dimensions of both kernels of produced-minus-consumed and the largest
+    entry over the primitive integer versions of their RREF basis vectors (for a one-dimensional kernel spanned by a positive
+    law: the ratio largest / smallest entry of that law)."""
+    sp = sorted({s for r0 in net["rxns"] for s, _ in r0["r"] + r0["p"]} | set(net.get("isolated", [])))
+    idx = {s: i for i, s in enumerate(sp)}
+    m, n = len(sp), len(net["rxns"])
+    S = [[Fr(0)] * n for _ in range(m)]
+    for j, r0 in enumerate(net["rxns"]):
+        for s, c in r0["r"]:
+            S[idx[s]][j] -= c
+        for s, c in r0["p"]:
+            S[idx[s]][j] += c
+    ST = [[S[i][j] for i in range(m)] for j in range(n)]
+    lk, rk = kernel_certificate(ST, n, m)["B"], kernel_certificate(S, m, n)["B"]
+    big = max([_primitive_max(v) for v in lk + rk] + [1])
+    coef = max([c for r0 in net["rxns"] for _, c in r0["r"] + r0["p"]] + [1])
+    # largest term |S_ij| * v_j of a row of S v = 0 for an exact positive flux v (min v = 1) and for the primitive right-kernel basis:
+    # double precision resolves such a row to about 1e-16 * term, the LP solver wants it below 1e-7
+    term = 0
+    if m and n:
+        z = feasible([list(r) for r in S], [-sum(r) for r in S])        # 1 + z is a strictly positive flux (as in positive_kernel_or_alternative)
+        vs = ([[1 + t for t in z]] if z is not None else []) + [[abs(x) * _primitive_max(b) / max(abs(y) for y in b) for x in b] for b in rk]
+        term = max([abs(S[i][j]) * w[j] for w in vs for i in range(m) for j in range(n)] + [0])
+    return {"lk": len(lk), "rk": len(rk), "big": big, "coef": coef, "m": m, "n": n, "term": term}
+
+
+def _decade(x):
+    return "<1e%d" % next(k for k in range(1, 40) if x < 10 ** k)
+
+
+def scale_cascade(rnd, cap=SCALE_RANGE, nmax=13):
+    """A network that conserves a 'mass' vector of large dynamic range: a tree (mostly a path) of conversions
+    a X_parent <-> b X_child with a * mass(parent) = b * mass(child).  Long cascades of small factors (8-13 species, i.e. just
+    beyond the 7-species / 6-reaction population: X0 >> 3 X1 >> ... ; binary fission; fusion 2 X >> Y), short cascades of
+    multi-digit factors (50 A >> B, 50 B >> C), mixtures; masses rising, falling or wandering along the tree.  Decorations decide
+    what the right answers are: nothing (conservative, one-dimensional left kernel, not consistent), reverse reactions, a
+    mass-balanced closing reaction (cycle: one-dimensional right kernel of the same dynamic range) or an UNBALANCED one, source +
+    sinks (open: not conservative, fluxes of large ratio), a duplicated reaction with one coefficient changed (kills the law),
+    an isolated species, mass-balanced composite reactions a X + b Y >> c Z."""
+    profile = rnd.choice(["small-long", "small-long", "big-short", "big-short", "mixed"])
+    n = rnd.randint(8, nmax) if profile == "small-long" else rnd.randint(3, 5) if profile == "big-short" else rnd.randint(4, 9)
+    shape = rnd.choice(["path", "path", "path", "tree", "star"])
+    parent = [None] + [(i - 1) if shape == "path" else 0 if shape == "star" else rnd.randrange(i) for i in range(1, n)]
+    trend = rnd.choice(["split", "split", "fuse", "wander"])        # mass falls / rises / wanders from parent to child
+    flow = rnd.choice(["down", "down", "up", "random"])            # which way the reactions are written
+    sp = label_pool(rnd, n)
+    if rnd.random() < 0.5:
+        rnd.shuffle(sp)
+    mass = [Fr(1)]
+    rxns = []
+    for i in range(1, n):
+        c = rnd.choice([2, 2, 3, 3, 4, 5]) if profile == "small-long" or (profile == "mixed" and rnd.random() < 0.6) else rnd.choice(SCALE_BIG)
+        d = 1 if rnd.random() < 0.8 else rnd.choice([2, 3])
+        if math.gcd(c, d) != 1:
+            d = 1
+        t = trend if trend != "wander" else rnd.choice(["split", "fuse"])
+        a, b = (d, c) if t == "split" else (c, d)                   # a X_parent ~ b X_child, mass(child) = mass(parent) * a / b
+        mc = mass[parent[i]] * a / b
+        if max(mass + [mc]) / min(mass + [mc]) > cap:
+            a, b, mc = 1, 1, mass[parent[i]]
+        mass.append(mc)
+        down = flow == "down" or (flow == "random" and rnd.random() < 0.5)
+        rxns.append(rx([(sp[parent[i]], a)], [(sp[i], b)]) if down else rx([(sp[i], b)], [(sp[parent[i]], a)]))
+
+    def balanced(r_side, z, top=cap):
+        """r_side = [(index, coefficient)..] >> c Z, scaled to integers; None when a coefficient gets larger than `top`."""
+        tot = sum(mass[i] * c for i, c in r_side) / mass[z]
+        qd = tot.denominator
+        out_r, cz = [(sp[i], c * qd) for i, c in r_side], tot.numerator
+        return (out_r, [(sp[z], cz)]) if max([c for _, c in out_r] + [cz]) <= top else None
+
+    leaves = [i for i in range(n) if i not in parent]
+    decos = [rnd.choice(["closed", "closed", "closed", "reversible", "cycle", "cycle", "cycle-off", "open", "open", "spoiler",
+                         "isolated", "composite", "composite"])]
+    if rnd.random() < 0.15:
+        decos.append(rnd.choice(["reversible", "isolated", "composite", "spoiler"]))
+    net = {}
+    for deco in decos:
+        if deco == "reversible":
+            for r0 in list(rxns):
+                if rnd.random() < 0.8:
+                    rxns.append(rx([tuple(x) for x in r0["p"]], [tuple(x) for x in r0["r"]]))
+        elif deco in ("cycle", "cycle-off"):
+            last = n - 1 if shape == "path" else rnd.choice(leaves)
+            bal = balanced([(last, 1)], 0)
+            if bal is not None:
+                r_side, p_side = bal
+                if deco == "cycle-off":
+                    # clearly unbalanced: K + 1 next to K is, for large K, a matrix at relative distance 1/K from a singular one
+                    # (the float rank / null space of THAT is not the subject of this stream)
+                    k0 = r_side[0][1]
+                    r_side = [(r_side[0][0], k0 + 1 if k0 < 50 else max(1, k0 // rnd.choice([2, 3, 10])))]
+                rxns.append(rx(r_side, p_side) if flow != "up" else rx(p_side, r_side))
+        elif deco == "open":
+            src, snk = ([0], leaves) if flow != "up" else (leaves, [0])
+            for i in src:
+                rxns.append(rx([], [(sp[i], rnd.choice([1, 1, 2]))]))
+            for i in snk:
+                rxns.append(rx([(sp[i], rnd.choice([1, 1, 3]))], []))
+        elif deco == "spoiler":
+            r0 = json.loads(json.dumps(rnd.choice(rxns)))
+            side = r0["p"] if r0["p"] else r0["r"]
+            side[0][1] += 1
+            rxns.insert(rnd.randint(0, len(rxns)), r0)
+        elif deco == "isolated":
+            net["isolated"] = [rnd.choice(["iso", "0", "zz9"])]
+        elif deco == "composite" and n >= 3:
+            for _ in range(rnd.randint(1, 2)):
+                x, y, z = rnd.sample(range(n), 3)
+                bal = balanced([(x, rnd.choice([1, 1, 2, 3])), (y, rnd.choice([1, 1, 2]))], z, top=SCALE_COMPOSITE)
+                if bal is not None:
+                    rxns.append(rx(*bal) if rnd.random() < 0.5 else rx(bal[1], bal[0]))
+    if rnd.random() < 0.5:
+        rnd.shuffle(rxns)
+    net["rxns"] = rxns
+    if net.get("isolated") and net["isolated"][0] in sp:
+        del net["isolated"]
+    return net
+
+
+def scale_random(rnd):
+    """<= 5 species, <= 4 reactions, coefficients drawn from the small alphabet AND multi-digit values up to 128; reversed,
+    repeated and k-fold scaled copies of a reaction (10 A >> 10 B next to A >> B), sources / sinks."""
+    ns = rnd.randint(2, 5)
+    sp = rnd.sample(rnd.choice(SPECIES_POOLS), ns)
+    nr = rnd.randint(1, 4)
+    cf = lambda: rnd.choice([1, 1, 1, 2, 3, 5, 7, 10, 12, 17, 25, 50, 64, 99, 100, 128])
+    side = lambda kmax: [(s, cf()) for s in rnd.sample(sp, rnd.randint(0, min(kmax, ns)))]
+    rxns = []
+    while len(rxns) < nr:
+        c = rnd.random()
+        if rxns and c < 0.2:
+            b0 = rnd.choice(rxns)
+            r0 = rx([tuple(x) for x in b0["p"]], [tuple(x) for x in b0["r"]])
+        elif rxns and c < 0.3:
+            b0, k = rnd.choice(rxns), rnd.choice([1, 2, 10, 25])
+            if max(x[1] for x in b0["r"] + b0["p"]) * k > 5000:
+                continue
+            r0 = rx([(s, x * k) for s, x in b0["r"]], [(s, x * k) for s, x in b0["p"]])
+        elif c < 0.4:
+            r0 = rx([], side(2)) if rnd.random() < 0.5 else rx(side(2), [])
+        else:
+            r0 = rx(side(2), side(2))
+        if r0["r"] or r0["p"]:
+            rxns.append(r0)
+    return {"rxns": rxns}
+
+
+def beyond_net(rnd):
+    """One step beyond each bound of the enumerated / random populations: one more species, one more reaction or one more
+    coefficient value than the exhaustive family (3 species, <= 2 reactions, coefficients {0,1,2}); 8-9 species and / or 7-8
+    reactions and / or coefficients up to 5 for the random family (<= 7 species, <= 6 reactions, coefficients <= 3)."""
+    kind = rnd.choice(["exh+species", "exh+reaction", "exh+coeff", "rand+size", "rand+size", "rand+coeff", "rand+both"])
+    if kind.startswith("exh"):
+        names = "ABCD" if kind == "exh+species" else "ABC"
+        nr = 3 if kind == "exh+reaction" else rnd.randint(1, 2)
+        top = 3 if kind == "exh+coeff" else 2
+        rxns = []
+        while len(rxns) < nr:
+            c = [rnd.randint(0, top) for _ in range(2 * len(names))]
+            if any(c):
+                rxns.append(rx(list(zip(names, c[:len(names)])), list(zip(names, c[len(names):]))))
+        return {"rxns": rxns}
+    big_size, big_coef = kind in ("rand+size", "rand+both"), kind in ("rand+coeff", "rand+both")
+    ns = rnd.randint(8, 9) if big_size else rnd.randint(2, 7)
+    nr = rnd.randint(7, 8) if big_size else rnd.randint(1, 6)
+    sp = label_pool(rnd, ns)
+    cf = (lambda: rnd.choice([1, 1, 2, 3, 4, 4, 5])) if big_coef else (lambda: rnd.choice([1, 1, 1, 2, 2, 3]))
+    side = lambda kmax: [(s, cf()) for s in rnd.sample(sp, rnd.randint(0, min(kmax, ns)))]
+    rxns = []
+    chain = rnd.random() < 0.4          # a backbone through all species keeps the left kernel small
+    if chain:
+        order = list(sp)
+        rnd.shuffle(order)
+        for a, b in zip(order, order[1:]):
+            if len(rxns) < nr:
+                rxns.append(rx([(a, cf())], [(b, cf())]))
+    while len(rxns) < nr:
+        c = rnd.random()
+        if rxns and c < 0.3:
+            b0 = rnd.choice(rxns)
+            r0 = rx([tuple(x) for x in b0["p"]], [tuple(x) for x in b0["r"]])
+        elif c < 0.4:
+            r0 = rx([], side(2)) if rnd.random() < 0.5 else rx(side(2), [])
+        else:
+            r0 = rx(side(3), side(3))
+        if r0["r"] or r0["p"]:
+            rxns.append(r0)
+    used = {s for r0 in rxns for s, _ in r0["r"] + r0["p"]}
+    return {"rxns": rxns, "isolated": [s for s in sp if s not in used][:1]}
+
+
+def scale_base(rnd, cap=SCALE_RANGE):
+    """One guarded network of the scale families + its exact profile."""
+    while True:
+        c = rnd.random()
+        net = scale_cascade(rnd, cap=cap) if c < 0.55 else scale_random(rnd) if c < 0.75 else beyond_net(rnd)
+        if not net["rxns"]:
+            continue
+        prof = scale_profile(net)
+        if prof["big"] <= SCALE_GUARD and prof["term"] <= SCALE_TERM:
+            return net, prof
+
+
+def scale_net(rnd):
+    """A scale network with its presentation: rules / explicit ids, input form per reaction (incl. one-shot iterables and
+    coefficients given as float / NumPy scalars, mixed within one reaction), query order / warm-up / NetworkX views, and for half
+    of the cases the simulated environment without SciPy + the from_crn switches."""
+    net, prof = scale_base(rnd)
+    mode = rnd.random()
+    for i, r0 in enumerate(net["rxns"]):
+        if mode < 0.45:
+            pass
+        elif mode < 0.6:
+            r0["rule"] = rnd.choice(["r", "a", "z", "R1", ""])
+        elif mode < 0.7:
+            r0["eid"] = str(10 + 7 * i) if i % 2 else f"e{i}"
+        else:
+            r0["form"] = rnd.choice(SCALE_FORMS)
+            if r0["form"] == "list" and max(c for _, c in r0["r"] + r0["p"]) > 300:
+                r0["form"] = "gen"
+    plan = query_plan(rnd, rich=False)
+    if rnd.random() < 0.3:
+        plan["views"] = sorted(rnd.sample(range(len(VIEW_VARIANTS)), rnd.randint(1, 2)))
+    if prof["big"] <= 1000 and prof["coef"] <= 5 and rnd.random() < 0.3:     # non-default tolerances only at small dynamic range
+        plan["opts"] = {"tol": rnd.choice([1e-12, 1e-10, 1e-9]), "rtol": rnd.choice([1e-13, 1e-12, 1e-11]),
+                        "eps": rnd.choice([1e-8, 2e-8]), "ceps": rnd.choice([1e-8, 1e-6, 1e-3, 0.5])}
+    net.update(plan)
+    if rnd.random() < 0.5:
+        net["x"] = x_plan(rnd, 0.6)
+    net["scale"] = {"big": _decade(prof["big"]), "coef": _decade(prof["coef"]), "lk": min(prof["lk"], 2), "rk": min(prof["rk"], 2)}
+    return net
+
+
+def scale_session(rnd):
+    """Hidden state x scale: a cascade of moderate dynamic range is analysed, then edited in place on the SAME object (one edit
+    puts a multi-digit coefficient in, the others are the usual small edits) and analysed again after every edit."""
+    while True:
+        base = scale_cascade(rnd, cap=1000, nmax=10)
+        prof = scale_profile(base) if base["rxns"] else None
+        if prof and prof["big"] <= 5000 and prof["term"] <= 10 ** 5:
+            break
+    case = {"net": base, "first": query_plan(rnd, rich=False), "steps": [], "reuse_view": rnd.random() < 0.5}
+    k = rnd.choice([1, 2, 2, 3])
+    bigstep = rnd.randrange(k)
+    for i in range(k):
+        if i == bigstep:
+            ed = {"op": "coef", "e": rnd.randint(0, 12), "side": rnd.choice("rp"), "i": rnd.randint(0, 3), "how": "set",
+                  "c": rnd.choice([10, 12, 25, 50])}
+        else:
+            ed = random_edit(rnd)
+            if ed["op"] in ("merge", "fresh"):
+                ed = {"op": "copy"} if rnd.random() < 0.5 else {"op": "noop"}
+        case["steps"].append({"edit": ed, **query_plan(rnd, rich=False)})
+    return case
+
+
+EXTRA_EDGE_ATTRS = [{"weight": 7}, {"weight": 0.5, "capacity": 3}, {"label": "x"}, {"id": 0}, {"name": ""}, {"coeff": 9, "stoichiometry": 4},
+                    {"weight": 0, "order": 2.0}, {"count": 5, "n": 2}]
+EXTRA_NODE_ATTRS = [{"name": "n"}, {"id": 0}, {"weight": 3}, {"name": "", "index": 99}, {"species": "Q"}, {"order": 1}]
+
+
+def scale_graph_case(rnd):
+    """Representation x scale on hand-built NetworkX graphs (all four graph classes): a scale network whose coefficients are
+    given as int / float / numpy.int64 / numpy.float64 / numpy.int32 MIXED within one graph, whose edges and nodes carry
+    attributes the documented conventions do not mention (weight, capacity, label, id, name, ... with values unlike the
+    coefficient); queried twice, partly in the simulated environment without SciPy."""
+    net, prof = scale_base(rnd)
+    directed = rnd.random() < 0.55
+    multi = rnd.random() < 0.35
+    g, n_sp = graph_description(rnd, {"rxns": net["rxns"], "isolated": net.get("isolated", [])}, directed, multi=multi)
+    nodes, edges = g["nodes"], g["edges"]
+    nummode = rnd.choice(["plain", "mixed", "mixed", "np"])
+    for e in edges:
+        if e.get("stoich") is not None and nummode != "plain":
+            k = rnd.choice(["int", "float", "npint", "npfloat", "npint32"] if nummode == "mixed" else ["npint", "npfloat"])
+            e.pop("float", None)
+            if k == "float":
+                e["float"] = True
+            elif k != "int":
+                e["num"] = k
+        if rnd.random() < 0.3:
+            e["extra"] = dict(rnd.choice(EXTRA_EDGE_ATTRS))
+    for nd in nodes:
+        if rnd.random() < 0.2:
+            nd["extra"] = {**(nd.get("extra") or {}), **rnd.choice(EXTRA_NODE_ATTRS)}
+    ops = insertion_ops(rnd, g, list(range(len(nodes))), list(range(len(edges))), rnd.choice(INSERTION_MODES))
+    if rnd.random() < 0.3:
+        ops.append(["q", graph_query_plan(rnd, rich=False)])
+        if rnd.random() < 0.5:
+            ops.append(["copy"])
+    plan = graph_query_plan(rnd, rich=False)
+    if rnd.random() < 0.5:
+        plan["x"] = x_plan(rnd, 0.5)
+    ops.append(["q", plan])
+    return {"graph": g, "ops": ops}
+
+
 # ---------------------------------------------------------------- hand-built graph populations
 def graph_query_plan(rnd, rich=True):
     st = {}
@@ -2940,6 +3294,15 @@ def setup(ctx):
         "species to a reaction is no part of the network, whatever role / stoich data it carries (documented in build_S_minus_plus)",
         "non-default tolerances are kept within 1e-13..1e-8 (rank / null space), 1e-8..1e-7 (conservativity margin) and < 1 (consistency margin, "
         "the LP bounds v >= 1): for the tiny integer matrices generated here the property's answers do not depend on them",
+        "scale streams: the property is about exact linear algebra, the implementation works in double precision with fixed thresholds "
+        "(rank: singular values > 1e-10; null space: > 1e-12 relative; sign scan: normalised entries > 1e-8; HiGHS feasibility 1e-7), so the "
+        "inputs stay where those thresholds cannot decide: dynamic range of a cascade <= 2e5 by construction, primitive kernel vectors "
+        "<= 1e6 and coefficient * flux <= 1e7 by an exact (Fraction) guard computed from the generated network only, an unbalanced closing "
+        "reaction is unbalanced by a factor >= 2 (K+1 next to K is at relative distance 1/K from a singular matrix), non-default tolerances "
+        "only at dynamic range <= 1e3; beyond this range the unchanged code does give wrong answers (see notes in the C17 report: "
+        "22501 X7 >> X1 closing a cascade of product 22500; HiGHS 'infeasible' for coefficients ~1e4 with fluxes ~1e6) -- not gated",
+        "representation variants of one network (coefficients as int / float / NumPy scalars, one-shot iterables, extra attributes) all stand "
+        "for the same integer coefficients: the specification side reads the store dump (stores) / the description (graphs) only",
     ]
     ctx.gen_rule = ("regression corpus; ALL single reactions over species A,B,C with coefficients in {0,1,2} (728); unordered pairs of such "
                     "reactions (all 265356 in thorough, a seeded sample of 4000 ordered pairs in quick); textbook families "
@@ -2981,7 +3344,27 @@ def setup(ctx):
                     "0-2 nodes that are neither species nor reaction (no flags, other kind with / without a bipartite flag, bipartite = 2, only "
                     "a label equal to a species label) and 1-3 edges species-species / reaction-reaction / to or between such nodes carrying "
                     "role / stoich data, inserted at random positions; in-place edits / copies / rebuilt objects as in GRAPH; 30 % of the "
-                    "queries in the simulated environment without SciPy, all with the from_crn switches. GATES: " + GATES)
+                    "queries in the simulated environment without SciPy, all with the from_crn switches; "
+                    "SCALE (520 quick / 5200 thorough store networks; + 60 / 600 sessions; + 140 / 1400 hand-built graphs): numbers outside the small "
+                    "alphabet and representation variants.  55 % CASCADES conserving a mass vector of large dynamic range (up to 2e5): a path / "
+                    "random tree / star of conversions a X <-> b Y with a*mass(X) = b*mass(Y); long ones of small factors (8-13 species, factors "
+                    "2..5: X0 >> 3 X1 >> ..., binary fission, 2 X >> Y), short ones of multi-digit factors (10..250: 50 A >> B, 50 B >> C), mixtures; "
+                    "masses falling / rising / wandering; reactions written down / up / at random; decorated with nothing, reverse reactions, a "
+                    "mass-balanced closing reaction (coefficient up to 2e5; one-dimensional right kernel of the same range), a clearly unbalanced "
+                    "one, source + sinks, a duplicated reaction with one coefficient changed, an isolated species, mass-balanced composite "
+                    "reactions a X + b Y >> c Z (coefficients <= 300); 20 % RANDOM <= 5 species / <= 4 reactions with coefficients from "
+                    "{1,2,3,5,7,10,12,17,25,50,64,99,100,128} incl. k-fold scaled copies of a reaction; 25 % ONE STEP BEYOND the enumerated / random "
+                    "bounds (4 species or 3 reactions or coefficient 3 for the exhaustive family; 8-9 species and / or 7-8 reactions and / or "
+                    "coefficients up to 5 for the random family).  Every generated network passes an EXACT guard (scale_profile: primitive integer "
+                    "kernel vectors <= 1e6, largest term coefficient*flux of S v = 0 <= 1e7).  Presentation: rules / explicit ids, per reaction one of "
+                    "the input forms dict / pairs / RXNSide / string / label list / one-shot generator of pairs / one-shot iterator of labels / map "
+                    "object / coefficients as float, numpy.int64, numpy.float64 or int, float, numpy.int64, numpy.float64, numpy.int32 mixed within "
+                    "one side; random query order, warm-up queries, NetworkX view variants, 30 % of the cases in the simulated environment without "
+                    "SciPy.  Sessions: a cascade (range <= 1e3) analysed, then edited in place (one edit sets a coefficient to 10..50, the others "
+                    "as in SESSIONS) and analysed again after every edit.  Graphs: the scale networks as DiGraph / Graph / MultiDiGraph / MultiGraph "
+                    "with stoich given as int / float / numpy.int64 / numpy.float64 / numpy.int32 mixed within one graph, 30 % of the edges and 20 % "
+                    "of the nodes carrying attributes the conventions do not mention (weight, capacity, label, id, name, coeff, stoichiometry, "
+                    "order, count, index, species) with values unlike the coefficient. GATES: " + GATES)
     ctx.nontrivial_rule = ("distinct stored network (species + reactions with ids and rules) with at least one reaction and certified rank >= 1; "
                            "a session state is identified by the whole history (base network, edits, query plan) that led to it; "
                            "a query on a hand-built graph by the graph description and the operations up to the query")
@@ -3031,6 +3414,12 @@ def run(ctx):
         #    has_irreversible_futile_cycles); (2) multigraph classes, nodes / edges outside the species-reaction scheme
         run_nets(ctx, x_nets(ctx.rnd, ctx.quick), "noscipy+extras")
         run_graphs(ctx, [random_graph_case2(ctx.rnd) for _ in range(400 if ctx.quick else 4000)], "graph-multi")
+        # -- representation and scale: numbers outside the small alphabet (multi-digit coefficients, conservation laws / fluxes of
+        #    large dynamic range, sizes one step beyond the enumerated / random bounds), coefficients given as float / NumPy
+        #    scalars / through one-shot iterables, attributes nobody asked for; as fresh stores, as edited stores, as graphs
+        run_nets(ctx, [scale_net(ctx.rnd) for _ in range(520 if ctx.quick else 5200)], "scale")
+        run_sessions(ctx, [scale_session(ctx.rnd) for _ in range(60 if ctx.quick else 600)], "scale-session")
+        run_graphs(ctx, [scale_graph_case(ctx.rnd) for _ in range(140 if ctx.quick else 1400)], "scale-graph")
     finally:
         close_pool()
     ctx.violations.sort(key=lambda x: bool(x["no_input"]))     # failing inputs first (stable)
